@@ -280,6 +280,7 @@ def _r4(ctx):
 
 
 def run(ctx):
+    C.require_locals(ctx, ctx.func('KernelDG.check_for_loopcarried_dep'), ['dg', 'offset'])
     f = ctx.func(FN)
     _r1(ctx, f)
     _r2(ctx, f)
